@@ -261,6 +261,20 @@ func checkMarkers(c Case, obs *Obs, vd *verdict) {
 	}
 	anyFailedBefore := false
 	sequential := c.Mode != "cobra" || c.Parallel <= 0
+	quiet := c.Quiet()
+	// whether a script failed is the driver's return value (direct), the "Error
+	// running script" warning (cobra, levels <= warn) or, at level error, only
+	// known when the command returned no error at all (then nothing failed)
+	failedKnown := c.Mode != "cobra" || c.Verbosity != "error" || obs.CmdErr == ""
+	if quiet {
+		vd.labels = append(vd.labels, "clause:markers-from-probes-only")
+		if !failedKnown {
+			vd.labels = append(vd.labels, "clause:script-outcome-unobservable")
+			if obs.Cancelled {
+				return // neither messages nor outcomes: nothing of clause (4) can be told apart from the cancellation
+			}
+		}
+	}
 	for si, s := range c.Scripts {
 		so := obs.Scripts[si]
 		if s.Kind != "" {
@@ -310,9 +324,20 @@ func checkMarkers(c Case, obs *Obs, vd *verdict) {
 			anyFailedBefore = true
 			continue
 		}
+		if quiet && !failedKnown && s.Timeout == "1ms" {
+			anyFailedBefore = true
+			continue // an expired deadline cannot be recognised without the script's error
+		}
 		reached := -1
 		end := false
 		bad := ""
+		if quiet && si < len(obs.ProbeReached) {
+			// the log level drops log(): the boundary probes tell how far the script got
+			reached = obs.ProbeReached[si]
+			if reached >= len(s.Stmts) {
+				reached, end = len(s.Stmts)-1, true
+			}
+		}
 		for _, m := range so.Msgs {
 			if !strings.HasPrefix(m, MarkPrefix+" ") {
 				continue
@@ -378,18 +403,18 @@ func checkMarkers(c Case, obs *Obs, vd *verdict) {
 				break
 			}
 		}
-		if (must == len(s.Stmts) && !end) || (must < len(s.Stmts) && reached < must) {
+		if failedKnown && ((must == len(s.Stmts) && !end) || (must < len(s.Stmts) && reached < must)) {
 			vd.fail(evid.V("script-stopped-without-raising", "script %s stopped after step k%d (end marker %v) although every statement before statement %d is wrapped in pcall and cannot stop it; failed=%v err=%q; an earlier script failed: %v; messages: %q",
 				scriptName(c, si), reached, end, must, so.Failed, so.Err, anyFailedBefore, tail(so.Msgs, 6)))
 		}
-		if !so.Failed && !end {
+		if failedKnown && !so.Failed && !end {
 			vd.fail(evid.V("script-cut-short-silently", "script %s stopped after step k%d of %d without its end marker and without being reported as failed; messages: %q",
 				scriptName(c, si), reached, len(s.Stmts), tail(so.Msgs, 6)))
 		}
 		if so.Failed && end {
 			vd.labels = append(vd.labels, "outcome:script-reported-failed-after-end-marker")
 		}
-		if so.Failed {
+		if so.Failed || !failedKnown {
 			anyFailedBefore = true
 		}
 	}
@@ -435,6 +460,16 @@ func compareRuns(c Case, dry, nor *Obs, vd *verdict) {
 			}
 		}
 		// an error value that is a table prints as its address: mask addresses
+		// (a deadline is wall clock: where the script's error is not observable a
+		// script with any timeout is left out, one with an expired deadline always)
+		errSeen := c.Mode != "cobra" || c.Verbosity != "error"
+		hasTimeout := c.Scripts[si].Timeout != "" || c.DefTimeout != ""
+		if diffAt < 0 && c.Scripts[si].Timeout != "1ms" && (errSeen || !hasTimeout) &&
+			si < len(dry.ProbeReached) && si < len(nor.ProbeReached) && dry.ProbeReached[si] != nor.ProbeReached[si] {
+			vd.fail(evid.V("dryrun-progress-differs-from-normal-run", "read-only script %s: the dry run got to statement boundary %d, the normal run on identical state to %d (same messages)",
+				scriptName(c, si), dry.ProbeReached[si], nor.ProbeReached[si]))
+			continue
+		}
 		if diffAt < 0 && a.Failed == b.Failed && addrRE.ReplaceAllString(a.Err, "0x?") == addrRE.ReplaceAllString(b.Err, "0x?") {
 			continue
 		}
